@@ -34,6 +34,7 @@ fn main() {
         "safelong" => safelong::safelong(rest),
         "body" => body::body(rest),
         "gen-tree" => gentree::gen_tree(rest),
+        "gen-seq" => gentree::gen_seq(rest),
         _ => {
             eprintln!("unknown subcommand {cmd:?}");
             2
